@@ -394,11 +394,18 @@ Record dh_env_ok (ep : envelope) (seed : bytes) (kl p g : Z) : Prop := {
   dp_key : gke_l2_key ep = concat (GkdiStructs.ffk_field_list
              {| ffk_key_length := kl; ffk_field_order := p; ffk_generator := g;
                 ffk_public_key := dh_public p g (OS2IP (kdf c h seed KDS_SERVICE (lit16z "DH") (bytes_of_bits (gke_priv_len ep)))) |});
-  dp_names : names_ok (gke_flags ep) (gke_domain ep) (gke_forest ep) = true }.
+  dp_names : names_ok (gke_flags ep) (gke_domain ep) (gke_forest ep) = true;
+  (* since the repair of D16 the receiver checks the peer's DH key against the group's parameters and range: the envelope
+     carries the root key's secret agreement parameters, these are the group (kl, p, g), and the group public value
+     g^y mod p is a valid group element (not 0, 1, p - 1) *)
+  dp_sparams : gke_secret_params ep = rk_sparams rk;
+  dp_group : dh_group_params (rk_sparams rk) kl p g;
+  dp_pubvalid : dh_pub_valid p (dh_public p g (OS2IP (kdf c h seed KDS_SERVICE (lit16z "DH") (bytes_of_bits (gke_priv_len ep))))) }.
 
 Theorem roundtrip_pubkey_dh (L : CryptoLaws c) ep seed kl p g r1 r2 r3 data blob :
   derived_seed h rk rkid sd l0 l1 l2 = Ok seed -> dh_env_ok ep seed kl p g ->
-  wfb r3 = true -> 8 + 3 * kl < U32 -> len r2 = 12 ->
+  wfb r3 = true -> dh_pub_valid p (dh_public p g (OS2IP r3)) ->      (* the ephemeral public value is a valid group element *)
+  8 + 3 * kl < U32 -> len r2 = 12 ->
   (forall kek kid w, new_kek_rnd c ep r3 = Ok (kek, kid) -> kw_wrap c kek r1 = Ok w -> len w < U32) ->
   (forall ct, gcm_enc c r1 r2 data = Ok ct -> len ct < U32) ->
   encrypt_blob c r1 r2 r3 data ep sid = Ok blob ->
@@ -407,8 +414,8 @@ Theorem roundtrip_pubkey_dh (L : CryptoLaws c) ep seed kl p g r1 r2 r3 data blob
     fst (unprotect_offline c X blob) = Ok data /\
     forall blob2, (let* b := blob_unpack blob in blob_pack b false) = Ok blob2 -> fst (unprotect_offline c X blob2) = Ok data.
 Proof.
-  intros Es D Hw3 Hkl Hr2 Sw Sct He.
-  destruct D as [Dpub D0 D1 D2 Dr Da Dp Dsa Drsa Dpr Dprb Dpp Dkl Dfp Dfg Dy Dkey Dn].
+  intros Es D Hw3 Vx Hkl Hr2 Sw Sct He.
+  destruct D as [Dpub D0 D1 D2 Dr Da Dp Dsa Drsa Dpr Dprb Dpp Dkl Dfp Dfg Dy Dkey Dn Dsp Dgrp Vy].
   set (top := root_top c h rk rkid sd l0).
   (* the encrypting side, from agree_dh with itself against any conforming covering envelope *)
   assert (A : forall e', env_ok c h rk rkid sd l0 e' -> covers (env_of e') l1 l2 ->
@@ -418,11 +425,12 @@ Proof.
                                            ffk_public_key := dh_public p g (OS2IP r3) |}) /\
               get_kek c e' kid = Ok (kek_dh c h p kl (dh_public p g (OS2IP (kdf c h seed KDS_SERVICE (lit16z "DH") (bytes_of_bits (gke_priv_len ep))))) (OS2IP r3))).
   { intros e' He' Hcov. pose proof (env_ok_hash c h rk rkid sd l0 Hhash e' He') as Hh'.
-    destruct He' as [Hp' El' Er' _ _ Hc' _ Esa' Epr'].
+    destruct He' as [Hp' El' Er' _ _ Hc' _ Esa' Epr' Esp'].
     pose proof (agree_dh c h top e' ep (fun _ => r3) seed kl p g Hh' (fields_hash ep Da Dp) Hp' Dpub) as A.
     rewrite D0, D1, D2, Dr in A. unfold KDFof in A. rewrite D0, Dr in A.
-    specialize (A El' Er' ltac:(congruence) Dsa ltac:(congruence) Dprb Hl1 Hl2 Hc' Hcov Es Dpp Dkl Dfp Dfg). cbv zeta in A.
-    destruct (A Dy Hw3 Dkey) as (kid & En & Ek & Eg & Eq). exists kid. rewrite Eq in Eg. auto. }
+    specialize (A El' Er' ltac:(congruence) Dsa ltac:(congruence) Dprb Hl1 Hl2 Hc' Hcov Es Dpp Dkl Dfp Dfg).
+    rewrite Esp', Dsp in A. specialize (A Dgrp Dgrp). cbv zeta in A.
+    destruct (A Dy Hw3 Vy Vx Dkey) as (kid & En & Ek & Eg & Eq). exists kid. rewrite Eq in Eg. auto. }
   (* some conforming covering envelope exists: the one the root key yields *)
   destruct (get_key_ok c h rk rkid sd l0 Hhash Halg Hl0 (cc_load cc_empty rkid rk) l1 l2) as (er & _ & _ & Her & Hcovr & _ & _); auto.
   { apply cache_ok_fresh; [cbn [cc_load cc_roots cc_find_root]; rewrite beqb_refl; reflexivity|reflexivity]. }
@@ -477,7 +485,7 @@ Proof.
   apply (roundtrip_any_mode L ep kek kid r1 r2 r3 data blob D0 D1 D2 Dr Dn En); auto.
   - apply (Ski _ _ En).
   - intros e' He' Hcov. pose proof (env_ok_hash c h rk rkid sd l0 Hhash e' He') as Hh'.
-    destruct He' as [Hp' El' Er' _ _ Hc' _ Esa' Epr'].
+    destruct He' as [Hp' El' Er' _ _ Hc' _ Esa' Epr' _].
     pose proof (agree_ecdh c L h (root_top c h rk rkid sd l0) e' ep (fun _ => r3) seed alg algz cv kl Ax Ay kek kid Hh' (fields_hash ep Da Dp) Hp' Dpub) as A.
     rewrite D0, D1, D2, Dr in A. unfold KDFof in A. rewrite D0, Dr in A.
     specialize (A El' Er' ltac:(congruence) Dsa Dnd Dec Dz ltac:(congruence) Dprb Hl1 Hl2 Hc' Hcov Es). cbv zeta in A.
@@ -491,7 +499,8 @@ End C01.
 (* ---- the hypotheses are satisfiable: instances under the guarded symbolic crypto ---- *)
 Definition ex_rk : root_key :=
   {| rk_key := repeat 7 64; rk_version := 1; rk_kdf_alg := STR_KDF_ALG; rk_kdf_params := KekExamples.ex_kdf_params;
-     rk_secret_alg := STR_DH; rk_secret_params := None; rk_priv_len := 512; rk_pub_len := 2048 |}.
+     rk_secret_alg := STR_DH; rk_secret_params := Some (KekExamples.ex_sp 2);   (* the DH group of the public-key instance below *)
+     rk_priv_len := 512; rk_pub_len := 2048 |}.
 Definition ex_rkid : bytes := repeat 5 16.
 Definition ex_cache : ccache := cc_load cc_empty ex_rkid ex_rk.
 Definition ex_sid : pystr := ascii_str "S-1-5-21-1-2-3-500".
@@ -593,7 +602,7 @@ Definition ex_pk_seed : bytes := match derived_seed symg SHA512 ex_rk ex_rkid ex
 Definition ex_pk_ybytes : bytes := kdf symg SHA512 ex_pk_seed KDS_SERVICE (lit16z "DH") (bytes_of_bits 512).
 Definition ex_ep_dh : envelope :=
   {| gke_version := 1; gke_flags := 1; gke_l0 := 361; gke_l1 := 31; gke_l2 := 23; gke_rkid := ex_rkid;
-     gke_kdf_alg := STR_KDF_ALG; gke_kdf_params := KekExamples.ex_kdf_params; gke_secret_alg := STR_DH; gke_secret_params := [];
+     gke_kdf_alg := STR_KDF_ALG; gke_kdf_params := KekExamples.ex_kdf_params; gke_secret_alg := STR_DH; gke_secret_params := KekExamples.ex_sp 2;
      gke_priv_len := 512; gke_pub_len := 16; gke_domain := [100]; gke_forest := [102; 46; 103]; gke_l1_key := [];
      gke_l2_key := concat (GkdiStructs.ffk_field_list {| ffk_key_length := 2; ffk_field_order := 65521; ffk_generator := 17;
                                                          ffk_public_key := modpow 17 (OS2IP ex_pk_ybytes) 65521 |}) |}.
@@ -607,6 +616,16 @@ Proof.
   - cbn [ex_ep_dh gke_l2_key gke_priv_len]. fold ex_pk_ybytes. unfold dh_public.
     rewrite <- modpow_spec; [reflexivity|lia|]. rewrite OS2IP_be_val. apply be_val_range, Wy.
   - reflexivity.
+  - reflexivity.
+  - vm_compute. reflexivity.
+  - cbn [ex_ep_dh gke_priv_len]. fold ex_pk_ybytes. apply dh_pub_validb_spec. unfold dh_public.
+    rewrite <- modpow_spec; [vm_compute; reflexivity|lia|]. rewrite OS2IP_be_val. apply be_val_range, Wy.
+Qed.
+(* the ephemeral public value of the instance is a valid group element too *)
+Lemma ex_r3_pub_valid : dh_pub_valid 65521 (dh_public 65521 17 (OS2IP ex_r3)).
+Proof.
+  apply dh_pub_validb_spec. unfold dh_public.
+  rewrite <- modpow_spec; [vm_compute; reflexivity|lia|]. rewrite OS2IP_be_val. apply be_val_range. vm_compute. reflexivity.
 Qed.
 Example example_pubkey_dh : exists blob,
   encrypt_blob symg ex_r1 ex_r2 ex_r3 [1; 2; 3] ex_ep_dh ex_sid = Ok blob /\
@@ -628,7 +647,7 @@ Proof.
   assert (E : exists blob, encrypt_blob symg ex_r1 ex_r2 ex_r3 [1; 2; 3] ex_ep_dh ex_sid = Ok blob) by (eexists; vm_compute; reflexivity).
   destruct E as (blob & E). exists blob. split; [exact E|].
   destruct (roundtrip_pubkey_dh symg SHA512 ex_rk ex_rkid (parsed ex_sid) ex_sid 361 31 23 H1 eq_refl eq_refl H2 H3 R0 R1 R2
-              symg_laws ex_ep_dh ex_pk_seed 2 65521 17 ex_r1 ex_r2 ex_r3 [1; 2; 3] blob H4 ex_dh_env_ok H5 R3 eq_refl Sw Sct E) as [(blob2 & E2) HX].
+              symg_laws ex_ep_dh ex_pk_seed 2 65521 17 ex_r1 ex_r2 ex_r3 [1; 2; 3] blob H4 ex_dh_env_ok H5 ex_r3_pub_valid R3 eq_refl Sw Sct E) as [(blob2 & E2) HX].
   destruct (HX ex_cache Hc) as [U1 U2]. split; [exact U1|]. exists blob2. split; [exact E2|apply U2, E2].
 Qed.
 
